@@ -1,0 +1,16 @@
+//go:build verif
+
+package operators
+
+import "github.com/coreruleset/crs-toolchain/v2/regex/processors"
+
+// VerifCleanup applies the string-level clean-up passes of complete() to input,
+// without the re-assembly in front of them. Only available with `-tags verif`.
+func VerifCleanup(ctx *processors.Context, input string) string {
+	a := NewAssembler(ctx)
+	result := a.escapeDoublequotes(input)
+	result = a.useHexBackslashes(result)
+	result = a.includeVerticalTabInSpaceClass(result)
+	result = a.dontUseFlagsForMetaCharacters(result)
+	return a.removeOutermostNonCapturingGroup(result)
+}
